@@ -523,6 +523,13 @@ pub fn check16(case: &DocCase) -> Res {
 // ------------------------------------------------------------------------------------ C17
 
 pub fn check17(case: &DocCase) -> Res {
+    check17_mode(case, true)
+}
+
+/// `ordered` = false: compare the listed items as a set. Used for documents outside the C15 space
+/// (tags on unwrap wrapper lines), where the statement's membership rule applies but its
+/// quantifier does not fix an order.
+pub fn check17_mode(case: &DocCase, ordered: bool) -> Res {
     let an = analyse(&case.src, &case.ds, &case.de, &RCfg::from(&case.cfg));
     let want: Vec<Region> = an.regions(true);
     let n_pending = want.iter().filter(|r| !r.ready).count();
@@ -552,7 +559,16 @@ pub fn check17(case: &DocCase) -> Res {
         .iter()
         .map(|r| (line_of(&case.src, r.s), line_of(&case.src, last_char_start(&case.src, r)), r.ready))
         .collect();
-    if got != wantv {
+    let same = if ordered {
+        got == wantv
+    } else {
+        let mut gs = got.clone();
+        let mut ws = wantv.clone();
+        gs.sort();
+        ws.sort();
+        gs == ws
+    };
+    if !same {
         let mut gs = got.clone();
         let mut ws = wantv.clone();
         gs.sort();
@@ -656,6 +672,12 @@ fn doc_check(prop: &str, case: &DocCase) -> Res {
 }
 
 fn eval(l: &mut Local, prop: &str, case: &DocCase, sample_ok: bool) {
+    eval_after(l, prop, case, sample_ok, &[]);
+}
+
+/// `prior`: configurations under which the same source was listed on this thread immediately
+/// before (recorded in the replay so that a history-dependent defect reproduces)
+fn eval_after(l: &mut Local, prop: &str, case: &DocCase, sample_ok: bool, prior: &[&Cfg]) {
     l.eval();
     let h = hash64(&[case.src.as_bytes(), case.ds.as_bytes(), case.cfg.now.as_bytes(), &[case.cfg.targets.len() as u8]]);
     l.state(h);
@@ -668,6 +690,7 @@ fn eval(l: &mut Local, prop: &str, case: &DocCase, sample_ok: bool) {
     if let Some((class, detail)) = res.viol {
         let mut cj = case.to_json();
         cj["engine"] = json!("listing");
+        cj["prior"] = json!(prior.iter().map(|c| c.to_json()).collect::<Vec<_>>());
         l.violation(Violation {
             prop: prop.into(),
             class,
@@ -738,12 +761,14 @@ pub fn run(r: &Report, prop: &str) {
                     // the same source again, on the same thread, under configurations in which
                     // nothing / everything is ready: listing is a function of source AND
                     // configuration (no state may survive from the previous call)
+                    let mut prior: Vec<&Cfg> = vec![&cfg];
                     for c2 in [&cfg_none, &cfg_all] {
                         let case2 = DocCase {
                             cfg: (*c2).clone(),
                             ..case.clone()
                         };
-                        eval(l, prop, &case2, false);
+                        eval_after(l, prop, &case2, false, &prior);
+                        prior.push(c2);
                     }
                 }
             }
@@ -803,8 +828,35 @@ pub fn replay(prop: &str, case: &Value) -> Vec<Violation> {
     let Some(c) = DocCase::from_json(case) else {
         return vec![];
     };
-    doc_check(prop, &c)
-        .viol
+    let prior: Vec<Cfg> = case["prior"]
+        .as_array()
+        .map(|a| a.iter().filter_map(Cfg::from_json).collect())
+        .unwrap_or_default();
+    // a fresh thread (fresh thread-local state), the recorded history first, then the case
+    if case["engine"] == "listing-unordered" {
+        return check17_mode(&c, false)
+            .viol
+            .map(|(class, detail)| Violation {
+                prop: prop.into(),
+                class,
+                case: case.clone(),
+                detail,
+            })
+            .into_iter()
+            .collect();
+    }
+    let prop_s = prop.to_string();
+    let res = std::thread::scope(|sc| {
+        sc.spawn(|| {
+            for pc in &prior {
+                let _ = doc_check(&prop_s, &DocCase { cfg: pc.clone(), ..c.clone() });
+            }
+            doc_check(&prop_s, &c)
+        })
+        .join()
+    });
+    let Ok(res) = res else { return vec![] };
+    res.viol
         .map(|(class, detail)| Violation {
             prop: prop.into(),
             class,
